@@ -441,10 +441,13 @@ func modeC07(thorough bool) {
 
 // background refreshes carry the ECS of the client whose hit started them: every hot name belongs to one
 // client subnet, other subnets keep the request objects busy while the refresh goroutines start (two Ps)
-func modeC12Prefetch(nopoison bool) {
-	in, err := newInst("c12-pf", instOpts{
+func modeC12Prefetch(nopoison bool) { modeC12PrefetchEcs(nopoison, true) }
+
+// ecs = false: the background refresh, like every upstream query, carries no client subnet when ECS is off
+func modeC12PrefetchEcs(nopoison, ecs bool) {
+	in, err := newInst(map[bool]string{true: "c12-pf", false: "c12-pfoff"}[ecs], instOpts{
 		listeners: []string{"udp", "tcp"}, upstreams: map[string]string{"u1": "udp"}, rules: []ruleSpec{{Forward: "u1"}},
-		cacheMem: 4 << 20, ecs: true,
+		cacheMem: 4 << 20, ecs: ecs,
 	})
 	if err != nil {
 		panic(err)
@@ -476,6 +479,9 @@ func modeC12(thorough bool) {
 	pfDone := make(chan struct{})
 	go func() { defer close(pfDone); modeC12Prefetch(false) }()
 	defer func() { <-pfDone }()
+	pfDone2 := make(chan struct{})
+	go func() { defer close(pfDone2); modeC12PrefetchEcs(false, false) }()
+	defer func() { <-pfDone2 }()
 	for _, ecs := range []bool{true, false} {
 		in, err := newInst(fmt.Sprintf("c12-ecs%v", ecs), instOpts{
 			listeners: []string{"udp", "tcp", "http", "fasthttp", "quic"},
@@ -528,6 +534,20 @@ func modeC12(thorough bool) {
 				in.send([]string{"udp", "tcp"}[k%3], "127.0.1.1", mkq(uniq()+".r0t60d0.z3.test."), 3*time.Second, nil)
 			}
 			in.send([]string{"http", "fasthttp"}[k%2], "", mkq(uniq()+".r0t60d0.z3.test."), 3*time.Second, nil)
+		}
+		// an OPT is an OPT whatever payload size it advertises (0, 1, 511): the response carries the proxy's
+		for i, sz := range []uint16{0, 0, 1, 511, 512, 65535} {
+			for _, lst := range []string{"udp", "tcp", "http", "quic"} {
+				q := mkq(uniq() + ".r0t60d0.z1.test.")
+				q.opt, q.optsize, q.optzero = true, sz, sz == 0
+				if lst == "quic" {
+					q.id = 0
+				}
+				in.send(lst, "127.0.1.1", q, 3*time.Second, nil)
+				if i == 1 { // the cached path
+					in.send(lst, "127.0.1.1", q, 3*time.Second, nil)
+				}
+			}
 		}
 		// unsupported queries carrying an OPT, and ones without
 		for _, lst := range []string{"udp", "tcp"} {
